@@ -1,4 +1,4 @@
-import QuiverModel.Core.VM.Check
+import QuiverModel.Core.VM.Inv
 /-
 Shape lemmas for M-VM × M-Check (owner: C07): what one instruction does to the *sizes* of the
 process (stack length, locals length, current frame's counter), stated against the checker's
@@ -21,13 +21,20 @@ theorem jumpTarget_eq {pc n : Nat} {off : Int} (hn : n < maxCode) (_hpc : pc < n
     omega
   rw [this]
 
+@[simp] theorem GuardSem.none_iff {lb lLen : Nat} {stk : List Val} :
+    GuardSem lb lLen .none stk ↔ True := by simp [GuardSem]
+
+@[simp] theorem Val.isNil_ok : Val.ok.isNil = false := rfl
+@[simp] theorem Val.isNil_nil : Val.nil.isNil = true := rfl
+
 /-- Shape effect of an instruction that stays in the current frame: the frame's counter becomes
 `pc'`, the stack has `sb + out.height` cells, there are at least `out.locals` frame-relative
-locals, nothing else that the invariant looks at changes. -/
+locals, the guard of `out` holds, nothing else that the invariant looks at changes. -/
 structure StepsTo (p p' : Proc) (fr : Frame) (rest : List Frame) (sb : Nat) (pc' : Nat) (out : Ann) : Prop where
   frames : p'.frames = { fr with counter := pc' } :: rest
   stack : p'.stack.length = sb + out.height
   locals : fr.localsBase + out.locals ≤ p'.locals.length
+  guard : GuardSem fr.localsBase p'.locals.length out.guard p'.stack
   park : p'.park = p.park
   sel : p'.selectState = p.selectState
   result : p'.result = p.result
@@ -46,6 +53,7 @@ theorem simple_step_sound {O : Oracle} {P : Prog} {p : Proc} {fr : Frame} {rest 
     (htr : transfer P n caps fr.counter a i = .ok succs)
     (hs : p.stack.length = sb + a.height)
     (hl : fr.localsBase + a.locals ≤ p.locals.length)
+    (hg : GuardSem fr.localsBase p.locals.length a.guard p.stack)
     (hsimple : i.simple = true)
     (hn : n < maxCode) (hpcn : fr.counter < n) :
     match stepInstr O P p i with
@@ -74,8 +82,17 @@ theorem simple_step_sound {O : Oracle} {P : Prog} {p : Proc} {fr : Frame} {rest 
     cases hst : p.stack with
     | nil => simp_all; omega
     | cons v s =>
+      have hgd : GuardSem fr.localsBase p.locals.length
+          (match a.guard with
+            | .top g => .dup (max g a.locals)
+            | _ => .dup a.locals) (v :: v :: s) := by
+        cases hga : a.guard with
+        | top g =>
+          rw [hga] at hg
+          exact ⟨v, s, rfl, fun hv => by have := hg v s hst hv; omega⟩
+        | _ => exact ⟨v, s, rfl, fun _ => hl⟩
       simp [stepInstr, handleDuplicate, hst, ok, Proc.bump, hfr]
-      shape_fin
+      constructor <;> (first | exact hgd | rfl | (simp_all; done) | (simp_all; omega) | omega)
   | pick k =>
     simp only [transfer] at htr
     split at htr <;> cases htr
@@ -159,24 +176,53 @@ theorem simple_step_sound {O : Oracle} {P : Prog} {p : Proc} {fr : Frame} {rest 
     rename_i hj
     have ht := jumpTarget_eq (off := off) hn hpcn hj.1 hj.2.1
     simp [stepInstr, handleJump, hj.2.2, hfr, ok, Proc.setCounter, ht]
-    shape_fin
+    constructor <;> (first | exact hg | rfl | (simp_all; done) | (simp_all; omega) | omega)
   | jumpIf off =>
     simp only [transfer] at htr
     split at htr
-    · split at htr <;> cases htr
-      rename_i hh hj
-      have ht := jumpTarget_eq (off := off) hn hpcn hj.1 hj.2.1
-      cases hst : p.stack with
-      | nil => simp_all; omega
-      | cons v s =>
-        simp only [stepInstr, handleJumpIf, hst]
-        by_cases hv : v.isNil
-        · simp [hv, ok, Proc.bump, hfr]
-          right
-          shape_fin
-        · simp [hv, hj.2.2, ok, Proc.setCounter, hfr, ht]
-          left
-          shape_fin
+    · rename_i hh
+      split at htr
+      · rename_i hj
+        have ht := jumpTarget_eq (off := off) hn hpcn hj.1 hj.2.1
+        cases hst : p.stack with
+        | nil => simp_all; omega
+        | cons v s =>
+          cases hga : a.guard with
+          | neg g =>
+            rw [hga] at hg htr
+            simp only at htr
+            cases htr
+            obtain ⟨n', w, s', hstk, hneg, himp⟩ := hg
+            rw [hst] at hstk
+            obtain ⟨rfl, rfl⟩ := List.cons.inj hstk
+            simp only [stepInstr, handleJumpIf, hst]
+            by_cases hv : v.isNil
+            · -- not taken: `Not w` is nil, so `w` is non-nil and the guarded locals are there
+              have hw : w.isNil = false := by rw [hv] at hneg; simpa using hneg.symm
+              have hgl := himp hw
+              simp [hv, ok, Proc.bump, hfr]
+              right
+              constructor <;> (first | rfl | (simp_all; done) | (simp_all; omega) | omega)
+            · -- taken: `w` is nil
+              have hw : w.isNil = true := by
+                have : v.isNil = false := by simpa using hv
+                rw [this] at hneg; simpa using hneg.symm
+              simp [hv, hj.2.2, ok, Proc.setCounter, hfr, ht]
+              left
+              constructor <;> (first | exact ⟨w, s', rfl, hw⟩ | rfl | (simp_all; done) | (simp_all; omega) | omega)
+          | none | top _ | dup _ | nilTop =>
+            rw [hga] at htr
+            simp only at htr
+            cases htr
+            simp only [stepInstr, handleJumpIf, hst]
+            by_cases hv : v.isNil
+            · simp [hv, ok, Proc.bump, hfr]
+              right
+              shape_fin
+            · simp [hv, hj.2.2, ok, Proc.setCounter, hfr, ht]
+              left
+              shape_fin
+      · cases htr
     · cases htr
   | call => simp [Instr.simple] at hsimple
   | tailCall r => simp [Instr.simple] at hsimple
@@ -217,8 +263,21 @@ theorem simple_step_sound {O : Oracle} {P : Prog} {p : Proc} {fr : Frame} {rest 
     cases hst : p.stack with
     | nil => simp_all; omega
     | cons v s =>
+      have hgd : GuardSem fr.localsBase p.locals.length
+          (match a.guard with
+            | .dup g => .neg g
+            | _ => .none) ((if v.isNil then Val.ok else Val.nil) :: s) := by
+        cases hga : a.guard with
+        | dup g =>
+          rw [hga] at hg
+          obtain ⟨w, s', hstk, himp⟩ := hg
+          rw [hst] at hstk
+          obtain ⟨rfl, rfl⟩ := List.cons.inj hstk
+          refine ⟨_, v, s', rfl, ?_, himp⟩
+          cases v.isNil <;> simp
+        | _ => simp
       simp [stepInstr, handleNot, hst, ok, Proc.bump, hfr]
-      shape_fin
+      constructor <;> (first | exact hgd | rfl | (simp_all; done) | (simp_all; omega) | omega)
   | spawn => simp [Instr.simple] at hsimple
   | send =>
     simp only [transfer] at htr
@@ -249,7 +308,7 @@ theorem simple_step_sound {O : Oracle} {P : Prog} {p : Proc} {fr : Frame} {rest 
 structure Checked (P : Prog) (fn : Function) (anns : Anns) : Prop where
   size : anns.size = fn.instructions.size
   small : fn.instructions.size < maxCode
-  entry : flowsTo fn.instructions.size anns 0 ⟨1, fn.captures⟩ = true
+  entry : flowsTo fn.instructions.size anns 0 ⟨1, fn.captures, .none⟩ = true
   local_ : ∀ pc a i, anns[pc]? = some (some a) → fn.instructions[pc]? = some i →
     ∃ succs, transfer P fn.instructions.size fn.captures pc a i = .ok succs ∧
       ∀ s ∈ succs, flowsTo fn.instructions.size anns s.1 s.2 = true
@@ -276,17 +335,78 @@ theorem checkFn_spec {P : Prog} {fn : Function} {anns : Anns} (h : checkFn P fn 
     have := List.all_eq_true.mp this s hs'
     exact this
 
-/-- The abstract state at `pc` admits a concrete frame whose stack has `sLen` cells over a base of
-`sb` and whose locals number `lLen` over a base of `lb`: either the frame is exhausted (`pc = n`)
-with exactly one value over the base, or `pc` is annotated, the height is the annotated one and
-there are at least the annotated locals. -/
-def AtPc (n : Nat) (anns : Anns) (pc sLen lLen sb lb : Nat) : Prop :=
-  (pc = n ∧ sLen = sb + 1) ∨
-  (∃ a, anns[pc]? = some (some a) ∧ sLen = sb + a.height ∧ lb + a.locals ≤ lLen)
+/-- What `out` knows about the top of the stack implies what an annotation it flows into claims. -/
+theorem guard_of_flows {out b : Ann} {lb lLen : Nat} {stk : List Val}
+    (hf : guardFlows out b = true) (hl : lb + out.locals ≤ lLen)
+    (hg : GuardSem lb lLen out.guard stk) : GuardSem lb lLen b.guard stk := by
+  unfold guardFlows at hf
+  cases hb : b.guard with
+  | none => simp
+  | top g =>
+    rw [hb] at hf
+    intro v s hstk hv
+    simp only [Bool.or_eq_true, beq_iff_eq, decide_eq_true_eq] at hf
+    rcases hf with hz | hle
+    · rw [hz] at hg
+      obtain ⟨v', s', hstk', hv'⟩ := hg
+      rw [hstk] at hstk'
+      obtain ⟨rfl, _⟩ := List.cons.inj hstk'
+      rw [hv] at hv'; cases hv'
+    · unfold Ann.eff at hle
+      cases ho : out.guard with
+      | top g' =>
+        rw [ho] at hg hle
+        have := hg v s hstk hv
+        simp only at hle
+        omega
+      | dup g' =>
+        rw [ho] at hg hle
+        obtain ⟨w, s', hstk', himp⟩ := hg
+        rw [hstk] at hstk'
+        obtain ⟨rfl, _⟩ := List.cons.inj hstk'
+        have := himp hv
+        simp only at hle
+        omega
+      | none => rw [ho] at hle; simp only at hle; omega
+      | neg _ => rw [ho] at hle; simp only at hle; omega
+      | nilTop => rw [ho] at hle; simp only at hle; omega
+  | dup g =>
+    rw [hb] at hf
+    cases ho : out.guard with
+    | dup g' =>
+      rw [ho] at hf hg
+      simp only [decide_eq_true_eq] at hf
+      obtain ⟨w, s', hstk', himp⟩ := hg
+      exact ⟨w, s', hstk', fun hv => by have := himp hv; omega⟩
+    | _ => rw [ho] at hf; simp at hf
+  | neg g =>
+    rw [hb] at hf
+    cases ho : out.guard with
+    | neg g' =>
+      rw [ho] at hf hg
+      simp only [decide_eq_true_eq] at hf
+      obtain ⟨n, w, s', hstk', hneg, himp⟩ := hg
+      exact ⟨n, w, s', hstk', hneg, fun hv => by have := himp hv; omega⟩
+    | _ => rw [ho] at hf; simp at hf
+  | nilTop =>
+    rw [hb] at hf
+    simp only [beq_iff_eq] at hf
+    rw [hf] at hg
+    exact hg
 
-theorem flowsTo_atPc {n : Nat} {anns : Anns} {pc' : Nat} {out : Ann} {sLen lLen sb lb : Nat}
-    (h : flowsTo n anns pc' out = true) (hs : sLen = sb + out.height) (hl : lb + out.locals ≤ lLen) :
-    AtPc n anns pc' sLen lLen sb lb := by
+/-- The abstract state at `pc` admits a concrete frame whose stack is `stk` over a base of `sb` and
+whose locals number `lLen` over a base of `lb`: either the frame is exhausted (`pc = n`) with
+exactly one value over the base, or `pc` is annotated, the height is the annotated one, there are
+at least the annotated locals and the annotated guard holds. -/
+def AtPc (n : Nat) (anns : Anns) (pc : Nat) (stk : List Val) (lLen sb lb : Nat) : Prop :=
+  (pc = n ∧ stk.length = sb + 1) ∨
+  (∃ a, anns[pc]? = some (some a) ∧ stk.length = sb + a.height ∧ lb + a.locals ≤ lLen ∧
+    GuardSem lb lLen a.guard stk)
+
+theorem flowsTo_atPc {n : Nat} {anns : Anns} {pc' : Nat} {out : Ann} {stk : List Val} {lLen sb lb : Nat}
+    (h : flowsTo n anns pc' out = true) (hs : stk.length = sb + out.height) (hl : lb + out.locals ≤ lLen)
+    (hg : GuardSem lb lLen out.guard stk) :
+    AtPc n anns pc' stk lLen sb lb := by
   unfold flowsTo at h
   split at h
   · left
@@ -296,7 +416,7 @@ theorem flowsTo_atPc {n : Nat} {anns : Anns} {pc' : Nat} {out : Ann} {sLen lLen 
     split at h
     · rename_i b hb
       simp at h
-      exact ⟨b, hb, by omega, by omega⟩
+      exact ⟨b, hb, by omega, by omega, guard_of_flows h.2 hl hg⟩
     · cases h
 
 end QM.VM
